@@ -488,6 +488,20 @@ def normalise(fn, world=None, modname=None, cls=None, primitives=(),
             fn = fn2
             info["detabled"] = dinfo
             info["inlined"] = info["inlined"] + ["<detable>"]
+        if world is not None and modname is not None and any(
+                isinstance(n, ast.Subscript) and isinstance(
+                    n.value, (ast.Name, ast.Attribute)) and isinstance(
+                        getattr(n, "_parent_call", None) or n, ast.AST)
+                for n in ast.walk(fn)):
+            # dispatch through a constant table in a statement of its own
+            # (`yield TABLE[test](args)`) is the if-chain it abbreviates
+            rt2, nn2 = _un.class_table_resolver(world, cls if hasattr(
+                cls, "lookup") else None, modname)
+            fn3 = acopy(fn)
+            if _un.expand_table_lookups(fn3, rt2, nn2, only_stmt=True):
+                fn = fn3
+                ast.fix_missing_locations(fn)
+                info["inlined"] = info["inlined"] + ["<table-dispatch>"]
     if any(isinstance(n, (ast.With, ast.AsyncWith)) for n in ast.walk(fn)) \
             and "nullcontext" in ast.unparse(fn):
         if not info["inlined"]:
@@ -891,6 +905,12 @@ def merge_appends(fn):
             return True
         if isinstance(e, ast.Name):
             return stores.get(e.id, 0) <= 1
+        if isinstance(e, ast.Attribute):
+            # an attribute chain of a name bound once
+            r_ = e
+            while isinstance(r_, ast.Attribute):
+                r_ = r_.value
+            return isinstance(r_, ast.Name) and stores.get(r_.id, 0) <= 1
         return False
 
     def try_at(stmts, i):
